@@ -179,6 +179,40 @@ class Elab:
         init = I.Enum("Initializer", "Aggregate", {"0": [ex(t) for t in tags]}) if isinstance(inits, list) else ex("L")
         return self._run(ip, fn, [init, self.u.type_id(declared, mod), I.Opaque("loc"), self.ctx]), operands
 
+    def run_overloads(self, overloads, args):
+        """write_function for the overload list [[(type name, modifier, 'In'|..)..]..] (FunctionId = position in
+        `overloads` BEFORE any permutation the caller applies via ids) -> ('Ok', chosen id) | ('Err', ambiguous?) | .."""
+        tags = self.TAGS[:len(args)]
+        operands = dict(zip(tags, args))
+        ip = self.interp(operands)
+        sigs = {}
+        for fid, params in overloads:
+            sigs[fid] = I.Enum("FunctionSignature", None, {
+                "return_type": I.Enum("FunctionReturn", None, {"return_type": self.u.type_id("Float32"), "semantic": I.Enum("Option", "None")}),
+                "template_params": [], "non_default_params": len(params),
+                "param_types": [I.Enum("ParamType", None, {"type_id": self.u.type_id(t, m), "input_modifier": I.Enum("InputModifier", im)}) for t, m, im in params]})
+        ip.extern["FunctionRegistry::get_function_signature"] = lambda a: sigs[a[1].fields["0"]]
+        ip.extern["FunctionRegistry::get_intrinsic_data"] = lambda a: I.Enum("Option", "None")
+        ip.extern["FunctionRegistry::get_template_instantiation_data"] = lambda a: I.Enum("Option", "None")
+        ip._extern_cache.clear()
+        fn = self.f.fn("write_function", TY)
+        unresolved = I.Enum("UnresolvedFunction", None, {"overloads": [I.Enum("FunctionId", None, {"0": fid}) for fid, _p in overloads]})
+        try:
+            r = ip.apply(fn, [unresolved, [], [operands[t] for t in tags], [self.operand_node(t, operands[t]) for t in tags],
+                              I.Opaque("loc"), I.Enum("CallType", "FreeFunction"), self.ctx])
+        except I.Unknown as e:
+            msg = str(e)
+            return ("aborts" if "panicking" in msg else "unreadable", msg[:120])
+        if isinstance(r, I.Enum) and r.variant == "Ok":
+            node = r.fields["0"].fields["0"]
+            return ("Ok", node.fields["0"].fields["0"])
+        if isinstance(r, I.Enum) and r.variant == "Err":
+            e0 = r.fields["0"]
+            if isinstance(e0, I.Enum) and e0.variant == "FunctionArgumentTypeMismatch":
+                return ("Err", bool(e0.fields.get("3")))
+            return ("Err", getattr(e0, "variant", "?"))
+        return ("unreadable", repr(r)[:80])
+
     def run_ternary(self, c, l, r):
         ip = self.interp({"C": c, "L": l, "R": r})
         return self._run(ip, self.ternary, [located("C"), located("L"), located("R"), self.ctx])
